@@ -710,6 +710,10 @@ class Cooperator:
         """
         self._stopped = True
         for taskObj in list(self._tasks):
+            if taskObj._completionState is not None:
+                # Completed meanwhile by a callback of a task completed
+                # earlier in this loop.
+                continue
             taskObj._completeWith(SchedulerStopped(), Failure(SchedulerStopped()))
         self._tasks = []
         if self._delayedCall is not None:
